@@ -240,7 +240,40 @@ pub fn run(ctx: &Ctx, st: &mut Stats) -> Vec<Violation> {
         return v;
     }
     v.extend(all_configs(ctx, st));
+    if !v.is_empty() {
+        return v;
+    }
+    v.extend(large_frames(ctx, st));
     v
+}
+
+/// real-size frames (see gen::LARGE_SIZES)
+fn large_frames(ctx: &Ctx, st: &mut Stats) -> Vec<Violation> {
+    let sizes: Vec<(usize, usize)> = if ctx.quick() { crate::gen::LARGE_SIZES[..8].to_vec() } else { crate::gen::LARGE_SIZES.to_vec() };
+    let prims = physical_primaries();
+    let seed0 = ctx.seed;
+    par_sweep(ctx, st, sizes.len() as u64, |lo, hi, st| {
+        for j in lo..hi {
+            let (w, h) = sizes[j as usize];
+            for k in 0..4u64 {
+                let ss = [(0u8, 0u8), (1, 1), (1, 0), (0, 0)][k as usize];
+                let (depth, u8s) = [(8u8, true), (10, false), (16, false), (8, false)][((j + k) % 4) as usize];
+                let c = cfg(STD_MC[((j + k) % 7) as usize], SUP_TC[((j * 3 + k) % 14) as usize], prims[((j + 2 * k) % 10) as usize], depth, k % 2 == 0, ss);
+                let (bw, bh) = ((w >> ss.0).max(1), (h >> ss.1).max(1));
+                let case = Case { cfg: c, u8_storage: u8s, bw, bh, colours: Colours::Seeded { stratum: (k % 6) as u8, seed: mix64(seed0 ^ (j << 8) ^ k) }, pads: [(0, 0), ((k % 2) as usize * 5, 0), (0, 0)] };
+                let mut local = Stats::new();
+                local.sample_budget = 0;
+                if let Err(v) = check(&case, &mut local) {
+                    return Some(v);
+                }
+                st.evaluations += 1;
+                st.comparisons += local.comparisons;
+                st.nontrivial_by_construction += 1;
+                st.class("large_frames", 1);
+            }
+        }
+        None
+    })
 }
 
 pub fn replay(v: &Value) -> Result<(), String> {
@@ -256,4 +289,4 @@ pub fn replay(v: &Value) -> Result<(), String> {
     check(&case, &mut Stats::new()).map_err(|v| v.message)
 }
 
-pub const RULE: &str = "cases = (matrix in 7 standard, transfer in 14 supported, primaries in the 10 physical ones (ST 428 excluded as the statement says), range, depth 8..16, storage, subsampling in 6, image of 1..8 x 1..8 chroma blocks (one case in eight: a single row wider than 1024 / 2048 pixels), independent per-plane paddings 0..32, of gamma-encoded in-gamut colours from 6 strata: uniform, greys, cube corners, near black, near white, saturated) generated by proptest, plus an enumeration of the whole configuration space; the image is encoded to codes by the oracle quantiser (nearest H.273 code), pixels constant within each chroma block; path Yuv::new -> Xyb::try_from(&yuv) -> Yuv::try_from((xyb, yuv.config())); oracle: width, height, config equal, every sample within max(1, 0.015*(2^n-1)) codes; non-trivial = image with a non-grey colour; distinct = by hash of (config, colours)";
+pub const RULE: &str = "cases = (matrix in 7 standard, transfer in 14 supported, primaries in the 10 physical ones (ST 428 excluded as the statement says), range, depth 8..16, storage, subsampling in 6, image of 1..8 x 1..8 chroma blocks (one case in eight: a single row wider than 1024 / 2048 pixels), independent per-plane paddings 0..32, of gamma-encoded in-gamut colours from 6 strata: uniform, greys, cube corners, near black, near white, saturated) generated by proptest, plus an enumeration of the whole configuration space and real-size frames (32768 .. 2 M pixels, rows up to 131080 wide, 4:4:4 / 4:2:0 / 4:2:2); the image is encoded to codes by the oracle quantiser (nearest H.273 code), pixels constant within each chroma block; path Yuv::new -> Xyb::try_from(&yuv) -> Yuv::try_from((xyb, yuv.config())); oracle: width, height, config equal, every sample within max(1, 0.015*(2^n-1)) codes; non-trivial = image with a non-grey colour; distinct = by hash of (config, colours)";
